@@ -6,26 +6,32 @@ ROOT = os.path.dirname(os.path.dirname(os.path.abspath(__file__)))
 MODES = {
     "C01": ["adf"], "C02": ["adf"], "C03": ["adf"], "C05": ["adf"], "C09": ["adf"],
     "C06": ["bdd", "persist"], "C07": ["bdd"], "C11": ["bdd", "adf"], "C13": ["bdd"], "C14": ["persist", "bdd"],
-    "C18": ["ng"], "C19": ["mirror"], "C20": ["iters"], "C12": [],
+    "C18": ["ng"], "C19": ["mirror"], "C20": ["iters"],
+    # C12: the diagram-level oracle (truth tables, path / depth / model / dependency references) against builds of the crate
+    # under non-default feature sets; "mode@cfg" selects the build
+    "C12": ["bdd@c_n", "bdd@c_pm"],
 }
+DEFAULT_FEATS = ["adhoccounting", "variablelist", "frontend"]
+FEATSETS = {"c_n": [], "c_pm": ["adhoccounting", "adhoccountmodels"]}
 BOUNDS = "diagrams over 4 variables, op sequences of length <= 20; ADFs with <= 4 statements and formulas of depth <= 3; nogoods over 4 positions; interpretation vectors of length <= 5"
 _cache = {}
 
 
-def _build(repo):
-    key = hashlib.sha1(repo.encode()).hexdigest()[:8]
+def _build(repo, feats=None):
+    feats = DEFAULT_FEATS if feats is None else feats
+    key = hashlib.sha1((repo + "|" + ",".join(feats)).encode()).hexdigest()[:8]
     src = f"/var/tmp/verif-replay-src-{key}"
     tgt = f"/var/tmp/verif-replay-target-{key}"
     os.makedirs(src, exist_ok=True)
     if os.path.exists(os.path.join(src, "src")):
         shutil.rmtree(os.path.join(src, "src"))
     shutil.copytree(os.path.join(ROOT, "replay", "src"), os.path.join(src, "src"))
-    open(os.path.join(src, "Cargo.toml"), "w").write(open(os.path.join(ROOT, "replay", "Cargo.toml.in")).read().replace("@REPO@", repo))
+    open(os.path.join(src, "Cargo.toml"), "w").write(open(os.path.join(ROOT, "replay", "Cargo.toml.in")).read().replace("@REPO@", repo).replace("@FEATS@", ", ".join('"%s"' % f for f in feats)))
     lock = os.path.join(repo, "Cargo.lock")
     if os.path.exists(lock):
         shutil.copy(lock, os.path.join(src, "Cargo.lock"))
     env = dict(os.environ, CARGO_TARGET_DIR=tgt, CARGO_NET_OFFLINE="true")
-    p = subprocess.run(["cargo", "build", "--offline", "-q"], cwd=src, env=env, capture_output=True, text=True, timeout=1500)
+    p = subprocess.run(["cargo", "build", "--offline", "-q"] + (["--features", "frontend"] if "frontend" in feats else []), cwd=src, env=env, capture_output=True, text=True, timeout=1500)
     if p.returncode != 0:
         return None, p.stderr[-1500:]
     return os.path.join(tgt, "debug", "verif_replay"), ""
@@ -33,18 +39,23 @@ def _build(repo):
 
 def run_modes(repo, modes, seed, budget=300, timeout=180, want=None):
     """returns (witness or None, checked inputs, notes); `want` = property tags whose findings count (None = any)"""
-    if repo not in _cache:
-        _cache[repo] = _build(repo)
-    exe, err = _cache[repo]
-    if exe is None:
-        return None, 0, ["replay harness does not build against this tree: " + err[-300:]]
     checked, notes = 0, []
     for m in modes:
-        for s in (seed, seed + 1):
-            key = (repo, m, s, budget)
+        m, _, cfg = m.partition("@")
+        bkey = (repo, cfg)
+        if bkey not in _cache:
+            _cache[bkey] = _build(repo, FEATSETS[cfg] if cfg else None)
+        exe, err = _cache[bkey]
+        if exe is None:
+            notes.append(f"replay harness does not build against this tree ({cfg or 'default features'}): " + err[-300:])
+            continue
+        # the diagram-level oracle is cheap (0.1 s per 6000 rounds): more seeds and rounds than the ADF-level modes
+        seeds, bud = ((range(seed, seed + 8), max(budget, 3000)) if m == "bdd" else ((seed, seed + 1), budget))
+        for s in seeds:
+            key = (repo, cfg, m, s, bud)
             if key not in _cache:
                 try:
-                    q = subprocess.run([exe, m, str(s + 1), str(budget)], capture_output=True, text=True, timeout=timeout)
+                    q = subprocess.run([exe, m, str(s + 1), str(bud)], capture_output=True, text=True, timeout=timeout)
                     line = [l for l in q.stdout.splitlines() if l.startswith("{")]
                     if line:
                         _cache[key] = json.loads(line[-1])
@@ -57,7 +68,7 @@ def run_modes(repo, modes, seed, budget=300, timeout=180, want=None):
             ws = r.get("witnesses", {})
             for tag, msg in sorted(ws.items()):
                 if want is None or tag in want:
-                    return dict(mode=m, seed=s + 1, budget=budget, tag=tag, input=msg, bounds=BOUNDS, rerun=f"{exe} {m} {s + 1} {budget}"), checked, notes
+                    return dict(mode=m + ("@" + cfg if cfg else ""), seed=s + 1, budget=bud, tag=tag, input=msg + (f" [crate built with features {FEATSETS[cfg]}]" if cfg else ""), bounds=BOUNDS, rerun=f"{exe} {m} {s + 1} {bud}"), checked, notes
             for tag in ws:
                 if tag == "?":
                     notes.append(ws[tag][:300])
